@@ -139,7 +139,6 @@ class Run:
         self.extra = {}
         self.rule = ''
         self.known = load_known(pid)
-        shutil.rmtree(os.path.join(VERIF, 'replays', pid), ignore_errors=True)     # replays of earlier runs are stale
 
     # ---------------------------------------------------------------- TLC
     def tlc(self, module, cfg, env=None, workers=None, simulate=None, depth=None,
@@ -279,6 +278,7 @@ class Run:
         rc = 0
         os.makedirs(os.path.join(VERIF, 'evidence'), exist_ok=True)
         rdir = os.path.join(VERIF, 'replays', self.pid)
+        shutil.rmtree(rdir, ignore_errors=True)          # replays of earlier runs are stale
         replays = []
         if self.mismatches:
             rc = 1
@@ -322,7 +322,10 @@ class Run:
         ev = {'property_id': self.pid, 'tier': self.tier, 'seed': self.seed, 'level': self.level,
               'coverage': cov, 'assumptions': self.assumptions, 'wall_s': round(wall, 2),
               'violations': self.nviol, 'tree': tree_rev()}
-        with open(os.path.join(VERIF, 'evidence', self.pid + '.json'), 'w') as f:
+        # runs against a scratch copy of the tree (VERIF_REPO) do not overwrite the evidence of /repo
+        evdir = os.path.join(VERIF, 'evidence') if REPO == '/repo' else os.path.join(VERIF, 'replays', '_scratch_evidence')
+        os.makedirs(evdir, exist_ok=True)
+        with open(os.path.join(evdir, self.pid + '.json'), 'w') as f:
             json.dump(ev, f, indent=1, default=str)
         shutil.rmtree(self.tmp, ignore_errors=True)
         print('%s %s: evaluations=%d nontrivial=%d states=%d validated=%d violations=%d known=%d wall=%.1fs'
